@@ -3,8 +3,9 @@
 (* stack (C05 part 2).  One event per (input bytes, subset S of the core stack):          *)
 (*   pkt : what gopacket.NewPacket(DecodeStreamsAsDatagrams) produced - per layer its     *)
 (*         type, digest of exported fields, contents and payload (length:digest), and     *)
-(*         `emb` (this IPv6HopByHop layer is the very object held in the preceding IPv6   *)
-(*         layer's HopByHop field: decodeIPv6 lists it a second time), the decode         *)
+(*         `emb` (1: this IPv6HopByHop layer is the very object held in the preceding     *)
+(*         IPv6 layer's HopByHop field - decodeIPv6 lists it a second time; 2: the same   *)
+(*         in a jumbogram, IPv6 length 0; else 0), the decode                             *)
 (*         failure's error text digest (plain and as the parser wraps a panic), Truncated *)
 (*   res : what DecodeLayers reported through 4 containers x IgnoreUnsupported (identical *)
 (*         observations merged; who = container + 4*ignore): decoded types, every         *)
@@ -55,7 +56,7 @@ Bookkeeping(e, r, S) ==
 \* <<reason, where, after>> for one observation r under IgnoreUnsupported = ig
 JudgeRun(e, r, ig) ==
   LET S == Range(e.s)
-      P == SelectSeq(e.pkt.ls, LAMBDA x : ~x.emb)
+      P == SelectSeq(e.pkt.ls, LAMBDA x : x.emb = 0)
       n == Len(P)
       failed == e.pkt.fail
       k == Len(r.types)
@@ -72,18 +73,22 @@ JudgeRun(e, r, ig) ==
       useB == ~RunOK(lrA) /\ failed /\ n >= 2 /\ RunOK(lrB)
       lr == IF useB THEN lrB ELSE lrA
       kk == Min(k, n)
-      FirstBad(f(_)) == IF \E i \in 1..kk : ~f(i) THEN r.types[CHOOSE i \in 1..kk : ~f(i) /\ \A j \in 1..(i - 1) : f(j)] ELSE ""
-      dF(i) == r.calls[i].d = P[i].d
-      cF(i) == r.calls[i].c = P[i].c
-      pF(i) == r.calls[i].p = P[i].p
-  IN IF r.err = "escaped-panic" THEN <<"panic", nextT, after>>
-     ELSE IF ~Bookkeeping(e, r, S) THEN <<"parser-bookkeeping", here, after>>
-     ELSE IF ~RunOK(lr) THEN <<"not-leading-run", here, after>>
-     ELSE IF FirstBad(cF) # "" THEN <<"contents-differ", FirstBad(cF), "">>
-     ELSE IF FirstBad(pF) # "" THEN <<"payload-differ", FirstBad(pF), "">>
-     ELSE IF FirstBad(dF) # "" THEN <<"fields-differ", FirstBad(dF), "">>
-     ELSE IF r.err = "error" /\ r.et \notin {e.pkt.ft, e.pkt.fpt} THEN <<"error-differs", nextT, after>>
-     ELSE IF ~TruncOK(lr) THEN <<"truncated-differs", here, after>>
+      \* the first layer of the run that differs, and in what (contents, then payload, then fields)
+      Same(i) == r.calls[i].c = P[i].c /\ r.calls[i].p = P[i].p /\ r.calls[i].d = P[i].d
+      fb == IF \A i \in 1..kk : Same(i) THEN 0 ELSE CHOOSE i \in 1..kk : ~Same(i) /\ \A j \in 1..(i - 1) : Same(j)
+      \* context for the signature: the packet holds a hop-by-hop header inside its IPv6 layer
+      hbh == IF \E i \in 1..Len(e.pkt.ls) : e.pkt.ls[i].emb = 2 THEN "IPv6+HopByHop(jumbogram)"
+             ELSE IF \E i \in 1..Len(e.pkt.ls) : e.pkt.ls[i].emb = 1 THEN "IPv6+HopByHop"
+             ELSE ""
+      ctx(dflt) == IF hbh # "" THEN hbh ELSE dflt
+  IN IF r.err = "escaped-panic" THEN <<"panic", nextT, ctx(after)>>
+     ELSE IF ~Bookkeeping(e, r, S) THEN <<"parser-bookkeeping", here, ctx(after)>>
+     ELSE IF ~RunOK(lr) THEN <<"not-leading-run", here, ctx(after)>>
+     ELSE IF fb # 0 THEN <<IF r.calls[fb].c # P[fb].c THEN "contents-differ"
+                            ELSE IF r.calls[fb].p # P[fb].p THEN "payload-differ" ELSE "fields-differ",
+                           r.types[fb], ctx(IF fb = 1 THEN "start" ELSE r.types[fb - 1])>>
+     ELSE IF r.err = "error" /\ r.et \notin {e.pkt.ft, e.pkt.fpt} THEN <<"error-differs", nextT, ctx(after)>>
+     ELSE IF ~TruncOK(lr) THEN <<"truncated-differs", here, ctx(after)>>
      ELSE <<"ok", "", "">>
 
 Judge(e) ==
